@@ -203,6 +203,10 @@ fn validate_header_v1(file: &mut File) -> io::Result<()> {
     Ok(())
 }
 
+#[cfg(kani)]
+#[path = "/verif/harness/ripd/message_ordinal_index.rs"]
+mod verif_kani;
+
 #[cfg(test)]
 mod tests {
     use super::*;
